@@ -160,15 +160,42 @@ def check_family(ctx, family, label):
                            "steps": [items[0][1][1], items[1][1][1]]})
 
 
+def is_plain_dep(d):
+    return isinstance(d, str) or (set(d) <= {"name", "environment"} )
+
+
+def drop_plain_dep(desc, rng):
+    d = copy.deepcopy(desc)
+    cands = [(n, i) for n, r in sorted(d["recipes"].items()) for i, dep in enumerate(r.get("depends", []))
+             if len(r.get("depends", [])) >= 2 and is_plain_dep(dep)]
+    if not cands:
+        return None
+    n, i = rng.choice(cands)
+    r = d["recipes"][n]
+    dep = r["depends"].pop(i)
+    dn = dep if isinstance(dep, str) else dep["name"]
+    if dn in r.get("provideDeps", []):
+        r["provideDeps"] = [x for x in r["provideDeps"] if x != dn]
+        if not r["provideDeps"]:
+            del r["provideDeps"]
+    return d
+
+
 def check_usage_independence(ctx, family, label):
     """ids of a package depend on its own declared inputs only, not on which other usages of
     the same recipes exist elsewhere in the project: after dropping the LAST dependency of a
     recipe, everything reached through its remaining dependencies keeps its ids"""
     base_desc, base = family[0]
     for desc, dumped in family[1:]:
-        changed = [n for n in base_desc["recipes"] if n in desc["recipes"] and
-                   len(desc["recipes"][n].get("depends", [])) + 1 == len(base_desc["recipes"][n].get("depends", [])) and
-                   desc["recipes"][n].get("depends", []) == base_desc["recipes"][n].get("depends", [])[:-1]]
+        changed = []
+        for n in base_desc["recipes"]:
+            if n not in desc["recipes"]:
+                continue
+            bd, dd = base_desc["recipes"][n].get("depends", []), desc["recipes"][n].get("depends", [])
+            if len(dd) + 1 == len(bd):
+                idx = [i for i in range(len(bd)) if bd[:i] + bd[i + 1:] == dd]
+                if idx and (idx[-1] == len(bd) - 1 or is_plain_dep(bd[idx[-1]])):
+                    changed.append(n)
         if len(changed) != 1:
             continue
         rname = changed[0]
@@ -229,16 +256,13 @@ def run(ctx):
             if e is not None:
                 fam.append((e[0], sandbox))
                 ctx.count("edit:" + e[1])
-        # dropping the last dependency of a recipe must not change the ids of what is reached through its other dependencies
-        for _ in range(2):
-            e = None
-            for _try in range(8):
-                e = edit(base, rng)
-                if e is not None and e[1] == "dep_drop":
-                    break
-            if e is not None and e[1] == "dep_drop":
-                fam.append((e[0], sandbox))
-                ctx.count("edit:dep_drop(extra)")
+        # dropping a dependency that hands nothing but its result to the recipe must not change the
+        # ids of what is reached through the other dependencies (ids do not depend on other usages)
+        for _ in range(3):
+            e = drop_plain_dep(base, rng)
+            if e is not None:
+                fam.append((e, sandbox))
+                ctx.count("edit:drop_plain_dep")
         # reverting restores: the base project once more
         fam.append((copy.deepcopy(base), sandbox))
         jobs.append(("gen%d" % i, fam))
